@@ -159,6 +159,10 @@ var devs = map[string][]dev{
 		{"expiry", "future1", func(o *api.PinOptions) { o.ExpireAt = tFuture1 }},
 		{"expiry", "future2", func(o *api.PinOptions) { o.ExpireAt = tFuture2 }},
 		{"expiry", "past", func(o *api.PinOptions) { o.ExpireAt = tPast }},
+		// instants that stored pins encode specially (the Unix epoch reads
+		// back as "no expiry"): as requests they are plain past expiries
+		{"expiry", "unix-epoch", func(o *api.PinOptions) { o.ExpireAt = time.Unix(0, 0) }},
+		{"expiry", "before-unix-epoch", func(o *api.PinOptions) { o.ExpireAt = time.Unix(-3600, 0) }},
 	},
 	"meta": {
 		meta("{}", map[string]string{}),
